@@ -19,15 +19,16 @@ Definition chk_parse (fx : fixes) (c : (str * option str) * str * (N * list lent
 Definition chk_sidecar (c : str * option str) : bool :=
   opt_eqb str_eqb (Some (sidecar_value (fst c))) (snd c).
 
-(* the Gopher menu: ((selector, children), (alts, mode), enumeration, (host, port), menu bytes as code points) *)
+(* the Gopher menu: ((selector, children), (alts, mode), enumeration, (host, port), bytes the
+   real server wrote, as code points).  A listing that fails with FileNotFound /
+   IOError is answered with a "3..." error line, any other exception leaves
+   whatever had been written (nothing, for a failing prepare). *)
 Definition chk_menu (fx : fixes)
-  (c : (str * list cchild) * (list alt * stripmode) * list nat * (str * Z) * option str) : bool :=
+  (c : (str * list cchild) * (list alt * stripmode) * list nat * (str * Z) * str) : bool :=
   let '((sel, cs), (alts, mode), idx, (host, port), menu) := c in
   let w := world_of sel cs in
   match umn_listing fx alts mode w (names_of cs idx) with
-  | Ok l => match render_menu host port (map snd l) with
-            | Ok m => opt_eqb str_eqb (Some m) menu
-            | Raise _ => isnone menu
-            end
-  | Raise _ => isnone menu
+  | Ok l => str_eqb (fst (render_menu host port (map snd l))) menu
+  | Raise FileNotFound | Raise IOErr => match menu with 51 :: _ => true | _ => false end
+  | Raise _ => str_eqb menu []
   end.
